@@ -443,7 +443,12 @@ def stream_end(ctx, P, rng, n):
         g = ProgramGen(rng, tag="_m", features={"skip": False, "repeat": False}, n_stmts=rng.randint(3, 12))
         t = [item_text(i, rng) for i in g.generate()]
         cut = rng.randrange(len(t) + 1)
-        ended = t[:cut] + [rng.choice([".end", ".END", "\t.end ; the rest is ignored"])] + t[cut:]
+        rest = t[cut:]
+        if rng.random() < 0.4:
+            # what follows '.end' need not be a program at all (people put remarks, checksums, a ^Z there)
+            rest = rest + [rng.choice(["listing ends here ***", "checksum 0147 (((", "\x1a", "'unterminated", "} } }", "mov ,,,", ".word 1,", '"'])]
+            rng.shuffle(rest)
+        ended = t[:cut] + [rng.choice([".end", ".END", "\t.end ; the rest is ignored", ".End", "END", "end", ".eNd"])] + rest
         trunc = t[:cut]
         head = ".link %o\n" % rng.choice([0o1000, 0o2000])
         if where == "single":
